@@ -258,6 +258,11 @@ func c06Positions() []position {
 	add("copy-src-int", is(oIS), "x := copy(vis, @)")
 	add("copy-src-string", is(oSS), "x := copy(vss, @)")
 	add("input-prompt", is(oS), "x := input(@)")
+	// program calls take texts: single scalar values (a slice, no value, several values are no argument)
+	add("program-arg", is(oS, oI, oB), "§echo(@)")
+	add("program-arg-second", is(oS, oI, oB), `§echo("a", @)`)
+	add("program-arg-captured", is(oS, oI, oB), "po, pe, pc := §echo(@)")
+	add("program-arg-second-stage", is(oS, oI, oB), `§echo("a") | §cat(@)`)
 	add("print-arg", func(o offer) bool { return o.ty != oV }, "print(@)")
 	add("print-arg2", func(o offer) bool { return o.ty != oV }, "print(1, @)").skip = is(oM)
 	add("len-arity-2", func(o offer) bool { return false }, "x := len(vs, @)")
@@ -310,7 +315,7 @@ func c06Build(p position, o offer, ctx c06Ctx) string {
 		sb.WriteString(l + "\n")
 	}
 	for _, l := range p.lines {
-		sb.WriteString(strings.ReplaceAll(l, "@", o.text) + "\n")
+		sb.WriteString(strings.ReplaceAll(strings.ReplaceAll(l, "@", o.text), "§", "@") + "\n") // § = the sign of a program call
 	}
 	for _, l := range ctx.post {
 		sb.WriteString(l + "\n")
